@@ -1,0 +1,26 @@
+//go:build verif
+// +build verif
+
+// Exported wrappers used only by the verification harness (build tag "verif", add-only).
+
+package config
+
+import "github.com/samaritan-proxy/samaritan/pb/config/service"
+
+// VerifDependencyUpdate is handleDependencyUpdate (otherwise reachable only through a discovery stream).
+func (c *Config) VerifDependencyUpdate(added, removed []*service.Service) {
+	c.handleDependencyUpdate(added, removed)
+}
+
+// VerifSvcConfigUpdate is handleSvcConfigUpdate.
+func (c *Config) VerifSvcConfigUpdate(name string, cfg *service.Config) {
+	c.handleSvcConfigUpdate(name, cfg)
+}
+
+// VerifSvcEndpointUpdate is handleSvcEndpointUpdate.
+func (c *Config) VerifSvcEndpointUpdate(name string, added, removed []*service.Endpoint) {
+	c.handleSvcEndpointUpdate(name, added, removed)
+}
+
+// VerifPending is the number of events waiting in the queue.
+func (c *Config) VerifPending() int { return len(c.evtCh) }
